@@ -5,3 +5,7 @@ package dastard
 // verifPoint marks a named synchronisation point for the verification harness.
 // Without the build tag "verif" it does nothing (and is inlined away).
 func verifPoint(name string) {}
+
+// verifAccess marks an access to a shared location (or a synchronisation operation) for the
+// verification harness.  Without the build tag "verif" it does nothing (and is inlined away).
+func verifAccess(loc string, write bool) {}
